@@ -319,6 +319,9 @@ end pool
         -> <frames>
     merge.series <lazy> <bufsize> <batch> <limit> <abort> <dedup> <sharded> <without names | -> <stores>
         -> <ok|aborted|err-open> shape=<b<n>|s|x,…> series=<series (';')> warn=<sorted msgs> hints=<sorted payloads>
+    q.select <lazy> <bufsize> <batch> <abort> <deduplicate> <sharded> <replica label names | -> <stores>
+        querier.selectFn (pkg/query) over the proxy (with its deduplicator) over the stores
+        -> err | ok n=<number of series; with replica deduplication only 0 or +> warn=<sorted set of msgs>
 -/
 section merge
 open Thanos.Merge
@@ -484,6 +487,23 @@ def handleMerge : List String → Option String
       | .aborted => "aborted"
       | .openFailed => "err-open"
       | .noStores => "unavailable")
+  | ["q.select", lazy, _buf, batch, abort, qd, sharded, replicas, stores] => do
+    let lazy ← parseBool? lazy
+    let batch ← parseNat? batch
+    let abort ← parseBool? abort
+    let qd ← parseBool? qd
+    let sharded ← parseBool? sharded
+    let replicas ← (listOf ',' replicas).mapM bytesOfHex?
+    let stores ← (listOf '|' stores).mapM parseStore?
+    -- `isDedupEnabled`: deduplicate && len(replicaLabels) > 0
+    let dedupOn := qd && !replicas.isEmpty
+    let rq : Request := { fixedDedup := fixedDedup, lazy := lazy, batchSize := batch, limit := 0, abort := abort, dedup := true,
+                          sharded := sharded, without := if dedupOn then replicas else [] }
+    let r := selectFn rq stores
+    if r.failed then pure "err" else
+    let ws := (sortStrs (r.warnings.map hexOfBytes)).eraseDups
+    let n := if dedupOn then (if r.series.isEmpty then "0" else "+") else toString r.series.length
+    pure s!"ok n={n} warn={joinWith "," ws}"
   | _ => none
 
 end merge
@@ -494,7 +514,7 @@ def handle (toks : List String) : String :=
   | op :: _ =>
     if op.startsWith "prune." then (handlePrune toks).getD "bad-op"
     else if op.startsWith "bpool." || op.startsWith "pool." then (handlePool toks).getD "bad-op"
-    else if op.startsWith "lt." || op.startsWith "merge." || op.startsWith "ring." then (handleMerge toks).getD "bad-op"
+    else if op.startsWith "lt." || op.startsWith "merge." || op.startsWith "q." || op.startsWith "ring." then (handleMerge toks).getD "bad-op"
     else "bad-op"
 
 end Thanos.Driver.Proxy
